@@ -20,7 +20,7 @@ const FORMAT: &str = "Format: https://www.debian.org/doc/packaging-manuals/copyr
 /// pattern symbols: literals, regex metacharacters, wildcards, the three escapes, '/'
 const PAT: [&str; 19] = ["a", "b", ".", "+", "(", ")", "[", "]", "{", "}", "^", "$", "|", "*", "?", "\\*", "\\?", "\\\\", "/"];
 /// path symbols
-const PATHSYM: [&str; 11] = ["a", "b", ".", "/", "*", "?", "\\", "+", "(", "^", "é"];
+const PATHSYM: [&str; 12] = ["a", "b", ".", "/", "*", "?", "\\", "+", "(", "^", "é", "\n"];
 
 /// Reference DEP-5 matcher: '*' any run (incl. '/'), '?' one character,
 /// backslash makes the next '*', '?' or '\' literal, everything else itself.
@@ -163,6 +163,11 @@ fn files_lane(ctx: &mut Ctx, _idx: u64) {
     }
     let mut text = String::from(FORMAT);
     text.push_str("Upstream-Name: x\n");
+    // the header paragraph may state the licence of the work as a whole: it is not a stand-alone licence paragraph
+    let header_license = r.chance(1, 4);
+    if header_license {
+        text.push_str(&format!("License: {}\n", r.pick_s(&LICENSES)));
+    }
     let mut model_files: Vec<MFiles> = vec![];
     let mut model_lic: Vec<(String, Vec<String>)> = vec![];
     for p in &order {
